@@ -65,7 +65,8 @@ structure Codec where
 
 /-- the MDS law (any `k` distinct blocks recover the input) plus the block-length facts of zfec -/
 structure Codec.Lawful (c : Codec) (k n : Nat) : Prop where
-  length_encode : ∀ pieces : List Bytes, pieces.length = k → (c.encode k n pieces).length = n
+  length_encode : ∀ (pieces : List Bytes) (L : Nat), pieces.length = k → (∀ p ∈ pieces, p.length = L) →
+      (c.encode k n pieces).length = n
   block_length : ∀ (pieces : List Bytes) (L : Nat), pieces.length = k → (∀ p ∈ pieces, p.length = L) →
       ∀ b ∈ c.encode k n pieces, b.length = L
   mds : ∀ (pieces : List Bytes) (L : Nat) (ids : List Nat), pieces.length = k → (∀ p ∈ pieces, p.length = L) →
